@@ -320,6 +320,44 @@ fn meaning(dag: &DagSpec, points: &[Vec<Fl>], mutate: u16, case: &Case, cx: &mut
         "tree-hash",
         "structurally equal trees hash differently"
     );
+    // Eq => equal hashes, also for constants that compare equal without being
+    // bit-identical (zeros of opposite sign, NaNs with different payloads)
+    {
+        let mut d3 = dag.clone();
+        let mut changed = false;
+        for n in d3.nodes.iter_mut() {
+            if let NodeSpec::C(f) = n {
+                if f.0 == 0.0 {
+                    *f = Fl(-f.0);
+                    changed = true;
+                } else if f.0.is_nan() {
+                    *f = Fl(f32::from_bits(f.0.to_bits() ^ 0x8000_0001));
+                    changed = true;
+                }
+            }
+        }
+        if changed {
+            let t4 = build_trees(&d3);
+            cx.ev.count("equal_but_not_bit_identical_constant_variants");
+            if trees[root] == t4[root] {
+                cx.ev.count("variants_comparing_equal");
+                ensure!(
+                    hash_of(&trees[root]) == hash_of(&t4[root]),
+                    "tree-hash-eq-law",
+                    "two trees compare equal (constants differ only in the sign of a zero or a NaN payload) but hash differently"
+                );
+                // equal trees import to the same node
+                let mut c2 = Context::new();
+                let a = c2.import(&trees[root]);
+                let b2 = c2.import(&t4[root]);
+                ensure!(
+                    a == b2,
+                    "equal-trees-import-differently",
+                    "two trees that compare equal import to different nodes"
+                );
+            }
+        }
+    }
     // a mutated expression must differ (if the mutated node is reachable)
     {
         let mi = sel_index(mutate, dag.nodes.len());
